@@ -161,7 +161,7 @@ class Gen:
         simple = ["capitalize", "lower", "upper", "title", "string", "striptags", "urlencode", "escape",
                   "e", "forceescape", "reverse", "pprint", "trim", "center", "first", "last", "random",
                   "list", "length", "wordcount", "count"]
-        withargs = ["indent", "indent", "replace", "truncate", "wordwrap", "format", "default", "d",
+        withargs = ["indent", "replace", "truncate", "wordwrap", "format", "default", "d",
                     "int", "float", "join", "join", "seq", "seq", "map", "map", "dictsort", "items",
                     "groupby", "selectattr", "minmax", "batch", "slice", "attr", "num", "trim_chars", "sum"]
         structf = ["urlize", "xmlattr", "tojson"]
@@ -437,7 +437,7 @@ class Gen:
         r = self.rng
         c = r.random()
         h = ["hole"]
-        if c < 0.4 or depth <= 0:
+        if c < 0.5 or depth <= 0:
             return h
         if c < 0.6:
             args = [[None, self.leaf("short")]]
@@ -501,7 +501,7 @@ class Gen:
         body, st = self.gen_stmts(depth, allow_struct, False)
         body = [["text", "ab\nlorem ab "]] + body
         c = r.random()
-        if c < 0.4:
+        if c < 0.2:
             args = [[None, self.leaf("short")]]
             if r.random() < 0.6:
                 args.append([None, ["bool", True]])
@@ -510,11 +510,17 @@ class Gen:
             return ["fblock", "replace", [[None, ["klit", "ab"]], [None, self.leaf("short")]], body], st
         if st:
             return ["fblock", r.choice(["trim", "string", "escape"]), [], body], st
-        if c < 0.7:
+        if c < 0.62:
+            return ["fblock", "join", [[None, self.leaf("short")]], body], st
+        if c < 0.66:
+            return ["fblock", "trim", [[None, self.leaf("short")]], body], st
+        if c < 0.72:
             e = self.leaf("short")
             ln = len(e[1]) if e[0] == "lit" else len(self.data[e[1]])
             return ["fblock", "truncate", [[None, ["num", ln + 4]], [None, ["bool", True]], [None, e], [None, ["num", 0]]], body], st
-        if c < 0.8:
+        if c < 0.76:
+            return ["fblock", "format", [[None, self.leaf("short")]], [["text", "ab %s ab "]] + body[1:]], st
+        if c < 0.82:
             return ["fblock", "wordwrap", [[None, ["num", 6]], [None, ["bool", True]], [None, self.leaf("short")]], body], st
         return ["fblock", r.choice(["upper", "title", "trim", "center", "striptags", "forceescape", "urlencode",
                                     "capitalize", "reverse", "list", "pprint"]), [], body], st
